@@ -143,6 +143,7 @@ func specNV(n renderNode) int { return specAcc(n, 0, specUnit(n)) }
 //@   ensures [single] len(patterns) == 1 ==> result1 == nil && result0.variant == patterns[0].variant
 //@   ensures [member] result1 == nil ==> exists k int :: 0 <= k && k < len(patterns) && result0.variant == patterns[k].variant && result0.components == patterns[k].components && result0.regex == patterns[k].regex
 //@   guard call (PatternVariant).Compare: [samepath] arg2 == matchingPath
+//@   ensures [all-examined] result1 == nil && len(patterns) > 1 ==> final(idx0) == len(patterns) - 1
 //@   loop 0: invariant -1 <= idx0 && idx0 < len(patterns) - 1
 //@   loop 0: invariant (currHighest.variant == patterns[idx0+1].variant && currHighest.components == patterns[idx0+1].components && currHighest.regex == patterns[idx0+1].regex) || exists k int :: 0 <= k && k < len(patterns) && currHighest.variant == patterns[k].variant && currHighest.components == patterns[k].components && currHighest.regex == patterns[k].regex
 
